@@ -103,21 +103,32 @@ def r1_placement(a, tier):
                      f'upper-case/token rules); found {[norm(n) for n in nts]}', fn.loc)
     # the guard itself, interpreted
     nt = a.p.func(f'{CORE}.next_token')
-    for what, ri_val, want in (('no rule', None, True), ('lower-case rule', Obj(is_tokn=False), True), ('token rule', Obj(is_tokn=True), False)):
+    # ... whatever the cursor looks at: a comment or whitespace regex may begin with ANY character (`REM ...`, `--` with @@namechars '-'),
+    # so no test of the character at the cursor can stand in for the skip
+    for (what, ri_val, want), current, answer in itertools.product(
+            (('no rule', None, True), ('lower-case rule', Obj(is_tokn=False), True), ('token rule', Obj(is_tokn=True), False)),
+            ('R', ' ', '#', None), (True, False)):
         hit = []
 
-        def methods(recv, name, args, kwargs, hit=hit):
+        def methods(recv, name, args, kwargs, hit=hit, answer=answer):
             if name == 'next_token':
                 hit.append(1)
                 return None
+            if isinstance(recv, Obj) and getattr(recv, '_is_cursor', False):
+                return answer  # any question the code asks the cursor (is_name_char, atend, ...)
             return NotImplemented
 
-        cur = Obj()
+        cur = Obj(current=current, pos=0, _is_cursor=True)
         me = Obj(state=Obj(cursor=cur), cursor=cur)
-        MiniEval({}, methods=methods).call_function(nt.node, [me, ri_val])
-        rep.add({'next_token_guard': what, 'skips': bool(hit), 'want': want})
+        try:
+            MiniEval({}, methods=methods).call_function(nt.node, [me, ri_val])
+        except Unsupported as e:
+            raise AnalysisError(f'C09.R1: cannot interpret ParserCore.next_token: {e}') from e
+        rep.add({'next_token_guard': what, 'cursor_at': repr(current), 'cursor_answers': answer, 'skips': bool(hit), 'want': want})
         if bool(hit) != want:
-            rep.fail(nt.qualname, f'guard:{what}', f'ParserCore.next_token with {what}: skips={bool(hit)}, documented: {want}', nt.loc)
+            rep.fail(nt.qualname, f'guard:{what}', f'ParserCore.next_token with {what}, the cursor at {current!r} (cursor predicates answering {answer}): '
+                     f'skips={bool(hit)}, documented: {want} - whitespace and comments are skipped before every token and lower-case rule, and a comment may '
+                     f'begin with any character', nt.loc)
     # is_tokn derivation, interpreted over rule names
     names = {'Foo': True, 'foo': False, '_Foo': True, '_foo': False, 'fooBar': False, 'F': True, '__X_y': True, '_': False, 'x9': False}
     post = a.p.func('tatsu.peg.base.Rule.__post_init__')
